@@ -184,11 +184,18 @@ func FuncBuilder(env *Zlisp, name string,
 		return MissingFunction, err
 	}
 
-	// minimal sanity check that we return the number of arguments
-	// on the stack that are declared
+	// an empty body still has to give the call its one value: nil, or,
+	// for several declared results, what (return nil nil ...) gives, a
+	// vector of one nil per result. (One push per declared result left
+	// all but one of them behind on the caller's data stack.)
 	if len(body) == 0 {
-		for range retHash.KeyOrder {
-			gen.AddInstruction(PushInstr{expr: SexpNull})
+		nils := []Sexp{SexpNull}
+		for i := 1; i < len(retHash.KeyOrder); i++ {
+			nils = append(nils, SexpNull)
+		}
+		err = gen.GenerateReturn(nils)
+		if err != nil {
+			return MissingFunction, err
 		}
 	}
 
